@@ -324,6 +324,6 @@ func init() {
 		Rule: "inputs: every token string up to the stated length over an alphabet rich in newlines, CRLF, tabs, 1-4 byte runes, an invalid byte, brackets, quotes and keywords, each also behind multi-line / long-line / CJK prefixes, x the three language settings; the rejected ones are the cases. Oracle: the error text is parsed; offset within the input; (line, col) recomputed from the bytes; quoted line = that line (or its 57-byte truncation); caret under that column; header and footer agree; only the configured language(s) appear. Concurrent stratum: 2-3 VMs with different language settings parsing rejected inputs under every schedule (preemption-bounded) at the hooked accesses to the shared language selector; each VM's message must equal its isolated message. Non-trivial = rejected input; distinct by (input, language).",
 		Enumerate: c19Enumerate,
 		Run:       c19Run,
-		Budget:    map[string]time.Duration{"quick": 150 * time.Second, "thorough": 30 * time.Minute},
+		Budget:    map[string]time.Duration{"quick": 400 * time.Second, "thorough": 30 * time.Minute},
 	})
 }
